@@ -308,7 +308,7 @@ def compare_cond_plain(impl, model, rtol, where="", marg=None):
     for i, (ri, rm) in enumerate(zip(A_i, A_m)):
         for j, (a, b) in enumerate(zip(ri, rm)):
             fb = float(b)
-            tol = rtol * (abs(fb) + 1e-3 * mx) + 1e-300
+            tol = rtol * (abs(fb) + mx) + 1e-300      # normwise: an entry may be off by rtol x the largest entry of the matrix
             if not abs(a - fb) <= tol:
                 return f"{where} cond.A[{i}][{j}]: implementation {a!r} vs model {fb!r} (scale {mx:.3g})", None
             out_w = max(out_w, abs(a - fb) / tol * rtol)
